@@ -18,13 +18,63 @@ impl From<anyhow::Error> for StorageError { fn from(e: anyhow::Error) -> Self { 
 pub type MerkleRoot = [u8; 4];
 #[derive(Clone, Copy, Debug, PartialEq, Eq)] pub struct Value(pub [u8; 1]);
 impl AsRef<[u8]> for Value { fn as_ref(&self) -> &[u8] { &self.0 } }
-#[derive(Clone, Copy, Debug, PartialEq, Eq)] pub struct Column;
+#[derive(Clone, Copy, Debug, PartialEq, Eq)] pub enum Col { Data, Nodes }
+#[allow(non_upper_case_globals)] pub const Column: Col = Col::Data;
+pub trait StorageColumn: Copy { fn name(&self) -> &'static str; }
+impl StorageColumn for Col { fn name(&self) -> &'static str { "column" } }
+/// which keys the stores of this crate are exact for: (primary key, sub-key 1, sub-key 2) - read by the in-memory tree contract
+pub static mut PROBE: (u8, u8, u8) = (0, 0, 0);
 pub const EMPTY_ROOT: MerkleRoot = [0; 4];
 /// the root as an INJECTIVE encoding of the leaf set over the two probed sub-keys (order-independent by construction;
 /// the empty set encodes to the empty root)
 pub fn set_root(a: Option<u8>, b: Option<u8>) -> u32 { (a.is_some() as u32) | ((b.is_some() as u32) << 1) | ((a.unwrap_or(0) as u32) << 8) | ((b.unwrap_or(0) as u32) << 16) }
 
-pub mod sparse { #[derive(Clone)] pub struct Primitive; pub mod in_memory { pub struct MerkleTree; impl MerkleTree { pub fn new() -> Self { MerkleTree } pub fn root(&self) -> crate::MerkleRoot { crate::EMPTY_ROOT } } } }
+pub mod sparse {
+    /// a tree node as the Nodes table holds it; for the contract only leaves matter: (primary key, sub-key) -> value tag
+    #[derive(Clone, Copy)] pub struct Primitive(pub u8);
+    pub mod in_memory {
+        use crate::*;
+        pub struct MerkleTree;
+        impl MerkleTree {
+            pub fn new() -> Self { MerkleTree }
+            pub fn root(&self) -> MerkleRoot { EMPTY_ROOT }
+            /// CONTRACT: the root of the tree holding exactly the given leaves (a later entry of a repeated key wins), and the
+            /// nodes that, written to the Nodes table, make up that tree
+            pub fn nodes_from_set<'a, I: Iterator<Item = (MerkleTreeKey, &'a Bytes)>>(set: I) -> (MerkleRoot, List<(MerkleRoot, sparse::Primitive)>) {
+                let (p, s1, s2) = unsafe { PROBE };
+                let (mut a, mut b) = (None, None);
+                let mut nodes = List::new();
+                for (k, v) in set { if k.0[0] == p && k.0[1] == s1 { a = Some(v.0[0]); } else if k.0[0] == p && k.0[1] == s2 { b = Some(v.0[0]); } nodes.push(([k.0[0], k.0[1], 0, 0], sparse::Primitive(v.0[0]))); }
+                (set_root(a, b).to_be_bytes(), nodes)
+            }
+        }
+    }
+}
+use sparse::in_memory;
+/// Vec stand-in with a fixed capacity of 2
+pub struct List<T> { pub items: [Option<T>; 2], pub n: usize }
+impl<T> List<T> {
+    pub fn new() -> Self { List { items: [None, None], n: 0 } }
+    pub fn push(&mut self, t: T) { if self.n < 2 { self.items[self.n] = Some(t); } self.n += 1; }
+    pub fn iter(&self) -> core::iter::Flatten<core::slice::Iter<'_, Option<T>>> { self.items.iter().flatten() }
+}
+impl<T> IntoIterator for List<T> { type Item = T; type IntoIter = core::iter::Flatten<core::array::IntoIter<Option<T>, 2>>; fn into_iter(self) -> Self::IntoIter { self.items.into_iter().flatten() } }
+/// itertools::Itertools: the adapters a change of this code could plausibly reach for
+pub trait Itertools: Iterator + Sized {
+    fn collect_vec(self) -> List<Self::Item> { let mut l = List::new(); for t in self { l.push(t); } l }
+    fn dedup_by<F: FnMut(&Self::Item, &Self::Item) -> bool>(self, same: F) -> DedupBy<Self, F> { DedupBy { it: self, last: None, same } }
+}
+impl<I: Iterator> Itertools for I {}
+pub struct DedupBy<I: Iterator, F> { it: I, last: Option<I::Item>, same: F }
+impl<I: Iterator, F: FnMut(&I::Item, &I::Item) -> bool> Iterator for DedupBy<I, F> {
+    type Item = I::Item;
+    fn next(&mut self) -> Option<I::Item> {
+        if self.last.is_none() { self.last = self.it.next(); }
+        let cur = self.last.take()?;
+        loop { match self.it.next() { Some(n) => { if (self.same)(&cur, &n) { continue } self.last = Some(n); break } None => break } }
+        Some(cur)
+    }
+}
 pub mod merkle_tables {
     use super::*;
     #[derive(Debug, Clone, PartialEq, Eq)]
@@ -43,7 +93,11 @@ pub mod merkle_tables {
 use merkle_tables::{SparseMerkleMetadata, SparseMerkleMetadataV1};
 
 pub trait Mappable { type Key: ?Sized + ToOwned<Owned = Self::OwnedKey>; type OwnedKey: Clone + PartialEq; type Value: ?Sized; type OwnedValue: Clone; }
-pub struct Bytes(pub [u8; 2]);
+// (stands for Vec<u8>: comparable, ordered, hashable)
+#[derive(Clone, Copy, Debug, PartialEq, Eq, PartialOrd, Ord, Hash)] pub struct Bytes(pub [u8; 2]);
+impl Bytes { pub fn into_owned(self) -> Bytes { self } }
+impl core::ops::Deref for Bytes { type Target = [u8]; fn deref(&self) -> &[u8] { &self.0 } }
+impl From<Bytes> for Value { fn from(b: Bytes) -> Value { Value([b.0[0]]) } }
 impl AsRef<[u8]> for Bytes { fn as_ref(&self) -> &[u8] { &self.0 } }
 pub struct Enc(pub [u8; 2]);
 impl Enc { pub fn as_bytes(&self) -> Bytes { Bytes(self.0) } }
@@ -54,6 +108,10 @@ impl Encode<[u8; 2]> for Codec { fn encode(t: &[u8; 2]) -> Enc { Enc(*t) } fn en
 impl Decode<[u8; 2]> for Codec { fn decode_from_value(v: Value) -> Result<[u8; 2], CodecError> { Ok([v.0[0], 0]) } }
 impl Encode<u8> for Codec { fn encode(t: &u8) -> Enc { Enc([*t, 0]) } fn encode_as_value(t: &u8) -> Value { Value([*t]) } }
 impl Decode<u8> for Codec { fn decode_from_value(v: Value) -> Result<u8, CodecError> { Ok(v.0[0]) } }
+impl Encode<MerkleRoot> for Codec { fn encode(t: &MerkleRoot) -> Enc { Enc([t[0], t[1]]) } fn encode_as_value(t: &MerkleRoot) -> Value { Value([t[0]]) } }
+impl Decode<MerkleRoot> for Codec { fn decode_from_value(v: Value) -> Result<MerkleRoot, CodecError> { Ok([v.0[0], 0, 0, 0]) } }
+impl Encode<sparse::Primitive> for Codec { fn encode(t: &sparse::Primitive) -> Enc { Enc([t.0, 0]) } fn encode_as_value(t: &sparse::Primitive) -> Value { Value([t.0]) } }
+impl Decode<sparse::Primitive> for Codec { fn decode_from_value(v: Value) -> Result<sparse::Primitive, CodecError> { Ok(sparse::Primitive(v.0[0])) } }
 
 //@ extract crates/storage/src/blueprint/sparse.rs trait PrimaryKey
 //@ end
@@ -78,13 +136,37 @@ pub trait KeyValueMutate: KeyValueInspect {
     fn take(&mut self, key: &[u8], column: Self::Column) -> StorageResult<Option<Value>>;
     fn delete(&mut self, key: &[u8], column: Self::Column) -> StorageResult<()>;
 }
-impl KeyValueInspect for Store { type Column = Column; }
+impl KeyValueInspect for Store { type Column = Col; }
 impl KeyValueMutate for Store {
-    fn put(&mut self, key: &[u8], _c: Column, value: Value) -> StorageResult<()> { if self.fails { return Err(StorageError::Fail) } if let Some(s) = self.slot(key) { *s = Some(value); } Ok(()) }
-    fn replace(&mut self, key: &[u8], _c: Column, value: Value) -> StorageResult<Option<Value>> { if self.fails { return Err(StorageError::Fail) } Ok(match self.slot(key) { Some(s) => s.replace(value), None => None }) }
-    fn take(&mut self, key: &[u8], _c: Column) -> StorageResult<Option<Value>> { if self.fails { return Err(StorageError::Fail) } Ok(match self.slot(key) { Some(s) => s.take(), None => None }) }
-    fn delete(&mut self, key: &[u8], _c: Column) -> StorageResult<()> { self.take(key, Column).map(|_| ()) }
+    fn put(&mut self, key: &[u8], _c: Col, value: Value) -> StorageResult<()> { if self.fails { return Err(StorageError::Fail) } if let Some(s) = self.slot(key) { *s = Some(value); } Ok(()) }
+    fn replace(&mut self, key: &[u8], _c: Col, value: Value) -> StorageResult<Option<Value>> { if self.fails { return Err(StorageError::Fail) } Ok(match self.slot(key) { Some(s) => s.replace(value), None => None }) }
+    fn take(&mut self, key: &[u8], _c: Col) -> StorageResult<Option<Value>> { if self.fails { return Err(StorageError::Fail) } Ok(match self.slot(key) { Some(s) => s.take(), None => None }) }
+    fn delete(&mut self, key: &[u8], _c: Col) -> StorageResult<()> { self.take(key, Column).map(|_| ()) }
 }
+pub enum WriteOperation { Insert(Value), Remove }
+pub trait BatchOperations: KeyValueMutate { fn batch_write<I>(&mut self, column: Self::Column, entries: I) -> StorageResult<()> where I: Iterator<Item = (Bytes, WriteOperation)>; }
+impl BatchOperations for Store {
+    // the data column through the probed slots; the Nodes column as the leaf set of P's tree
+    fn batch_write<I>(&mut self, column: Col, entries: I) -> StorageResult<()> where I: Iterator<Item = (Bytes, WriteOperation)> {
+        if self.fails { return Err(StorageError::Fail) }
+        for (k, op) in entries {
+            let v = match op { WriteOperation::Insert(v) => Some(v), WriteOperation::Remove => None };
+            match column {
+                Col::Data => { if let Some(s) = self.slot(&k.0) { *s = v; } }
+                Col::Nodes => { if k.0[0] != self.p { self.foreign_writes += 1; } else if k.0[1] == self.s1 { self.t1 = v.map(|v| v.0[0]); } else if k.0[1] == self.s2 { self.t2 = v.map(|v| v.0[0]); } else { self.foreign_writes += 1; } }
+            }
+        }
+        Ok(())
+    }
+}
+pub trait TableWithBlueprint: Mappable + Sized { type Blueprint; type Column: StorageColumn; fn column() -> Self::Column; }
+pub trait BlueprintCodec<M: Mappable> { type KeyCodec: Encode<M::Key> + Decode<M::OwnedKey>; type ValueCodec: Encode<M::Value> + Decode<M::OwnedValue>; }
+pub trait BlueprintInspect<M: Mappable, S: KeyValueInspect>: BlueprintCodec<M> {}
+pub struct Plain;
+impl BlueprintCodec<NodesTable> for Plain { type KeyCodec = Codec; type ValueCodec = Codec; }
+impl<S: KeyValueInspect> BlueprintInspect<NodesTable, S> for Plain {}
+impl TableWithBlueprint for NodesTable { type Blueprint = Plain; type Column = Col; fn column() -> Col { Col::Nodes } }
+impl TableWithBlueprint for DataTable { type Blueprint = Bp; type Column = Col; fn column() -> Col { Col::Data } }
 pub struct MetaTable; pub struct NodesTable; pub struct DataTable;
 impl Mappable for MetaTable { type Key = u8; type OwnedKey = u8; type Value = SparseMerkleMetadata; type OwnedValue = SparseMerkleMetadata; }
 impl Mappable for NodesTable { type Key = MerkleRoot; type OwnedKey = MerkleRoot; type Value = sparse::Primitive; type OwnedValue = sparse::Primitive; }
@@ -101,6 +183,13 @@ impl StorageMutate<MetaTable> for Store {
     fn get_(&self, k: &u8) -> StorageResult<Option<Cow<'_, SparseMerkleMetadata>>> { Ok(if *k == self.p { self.meta_p.clone() } else if *k == self.q { self.meta_q.clone() } else { None }.map(Cow::Owned)) }
     fn insert_(&mut self, k: &u8, v: &SparseMerkleMetadata) -> StorageResult<()> { if *k == self.p { self.meta_p = Some(v.clone()); } else if *k == self.q { self.meta_q = Some(v.clone()); } else { self.foreign_writes += 1; } Ok(()) }
     fn remove_(&mut self, k: &u8) -> StorageResult<()> { if *k == self.p { self.meta_p = None; } else if *k == self.q { self.meta_q = None; } else { self.foreign_writes += 1; } Ok(()) }
+    fn raw(&mut self) -> &mut Store { self }
+}
+impl StorageMutate<DataTable> for Store {
+    type Error = StorageError;
+    fn get_(&self, _k: &[u8; 2]) -> StorageResult<Option<Cow<'_, u8>>> { Ok(None) }
+    fn insert_(&mut self, _k: &[u8; 2], _v: &u8) -> StorageResult<()> { Ok(()) }
+    fn remove_(&mut self, _k: &[u8; 2]) -> StorageResult<()> { Ok(()) }
     fn raw(&mut self) -> &mut Store { self }
 }
 impl StorageMutate<NodesTable> for Store {
@@ -151,6 +240,14 @@ pub trait BlueprintMutate<M: Mappable, S: KeyValueMutate> {
 }
 //@ extract crates/storage/src/blueprint/sparse.rs impl BlueprintMutate for Sparse
 //@ end
+//@ extract crates/storage/src/blueprint/sparse.rs impl BlueprintCodec for Sparse
+//@ end
+//@ extract crates/storage/src/blueprint/sparse.rs impl BlueprintInspect for Sparse
+//@ end
+//@ extract crates/storage/src/blueprint.rs trait SupportsBatching
+//@ end
+//@ extract crates/storage/src/blueprint/sparse.rs impl SupportsBatching for Sparse
+//@ end
 
 pub struct FirstByte;
 impl PrimaryKey for FirstByte { type InputKey = [u8; 2]; type OutputKey = u8; fn primary_key(key: &[u8; 2]) -> Cow<'_, u8> { Cow::Owned(key[0]) } }
@@ -164,6 +261,7 @@ type Bp = Sparse<Codec, Codec, MetaTable, NodesTable, FirstByte>;
 fn any_store() -> Store {
     let (p, q, s1, s2): (u8, u8, u8, u8) = (kani::any(), kani::any(), kani::any(), kani::any());
     kani::assume(p != q && s1 != s2);
+    unsafe { PROBE = (p, s1, s2); }
     let v1 = if kani::any() { Some(Value([kani::any()])) } else { None };
     let v2 = if kani::any() { Some(Value([kani::any()])) } else { None };
     let mut s = Store { p, s1, v1, s2, v2, meta_p: None, q, meta_q: if kani::any() { Some(SparseMerkleMetadata::new(kani::any())) } else { None },
@@ -224,3 +322,55 @@ fn c14_canary() {
     let _ = <Bp as BlueprintMutate<DataTable, Store>>::put(&mut s, &key, Column, &kani::any());
     kani::assert(s.meta_p == m0, "[C14.sparse.canary.root-never-changes]");
 }
+
+// ---- batched operations (SupportsBatching): init / insert / remove of up to 2 entries of one primary key ---------------
+// After a batch, the key-value column holds exactly what single operations in the same order would have left (a later entry
+// of a repeated key wins), P's tree holds exactly those entries, and the root recorded for P is the root over them.
+#[cfg(kani)]
+fn batch_case(op: u8, n: usize) {
+    let mut s = any_store();
+    if op == 0 { // init is for a primary key without entries
+        if kani::any() { s.v1 = None; s.v2 = None; s.t1 = None; s.t2 = None; s.meta_p = None; }
+    }
+    let initialized = s.meta_p.is_some();
+    let meta_q0 = s.meta_q.clone();
+    let (p, s1, s2, v1_0, v2_0) = (s.p, s.s1, s.s2, s.v1, s.v2);
+    let pick = |b: bool| if b { s1 } else { s2 };
+    let (ka, kb) = (pick(kani::any()), pick(kani::any()));
+    let (xa, xb): (u8, u8) = (kani::any(), kani::any());
+    let set = [([p, ka], xa), ([p, kb], xb)];
+    let r = match op {
+        0 => <Bp as SupportsBatching<DataTable, Store>>::init(&mut s, Column, set.iter().take(n).map(|(k, v)| (k, v))),
+        1 => <Bp as SupportsBatching<DataTable, Store>>::insert(&mut s, Column, set.iter().take(n).map(|(k, v)| (k, v))),
+        _ => <Bp as SupportsBatching<DataTable, Store>>::remove(&mut s, Column, set.iter().take(n).map(|(k, v)| k)),
+    };
+    let ok = r.is_ok(); core::mem::forget(r);
+    if op == 0 {
+        kani::assert(ok == !initialized, "[C14.sparse.batch.init-succeeds-exactly-on-a-primary-key-without-a-recorded-root]");
+        if !ok { kani::assert(s.v1 == v1_0 && s.v2 == v2_0 && consistent(&s), "[C14.sparse.batch.refused-init-changes-nothing]"); return }
+    } else {
+        kani::assert(ok, "[C14.sparse.batch.insert-and-remove-succeed-on-a-consistent-table]");
+    }
+    // what single operations in order would have left
+    let (mut e1, mut e2) = (v1_0, v2_0);
+    let mut i = 0;
+    while i < 2 { if i < n { let (k, x) = if i == 0 { (ka, xa) } else { (kb, xb) }; let nv = if op <= 1 { Some(Value([x])) } else { None }; if k == s1 { e1 = nv } else { e2 = nv } } i += 1; }
+    if n == 2 { kani::cover!(ka == kb && xa != xb, "[C14.sparse.batch.cover-repeated-key-with-different-values]"); }
+    kani::assert(s.v1 == e1 && s.v2 == e2, "[C14.sparse.batch.column-holds-what-single-operations-in-order-would-leave]");
+    kani::assert(s.t1 == e1.map(|v| v.0[0]) && s.t2 == e2.map(|v| v.0[0]), "[C14.sparse.batch.tree-holds-exactly-the-keys-current-entries]");
+    kani::assert(consistent(&s), "[C14.sparse.batch.recorded-root-equals-the-root-over-the-keys-current-entries]");
+    kani::assert(s.meta_q == meta_q0 && s.foreign_writes == 0, "[C14.sparse.batch.other-primary-keys-are-untouched]");
+    if op == 2 && s.v1.is_none() && s.v2.is_none() { kani::assert(s.meta_p.is_none(), "[C14.sparse.batch.no-root-is-recorded-once-the-last-entry-is-removed]"); }
+}
+//@ harness kind=bounded tier=quick bound="batches of 2 entries of one primary key" timeout=1200 extra="--default-unwind 6"
+#[cfg(kani)] #[kani::proof] #[kani::stub(alloc::fmt::format, fmt_stub)]
+fn c14_batch_init_2() { batch_case(0, 2); }
+//@ harness kind=bounded tier=quick bound="batches of 2 entries of one primary key" timeout=1200 extra="--default-unwind 6"
+#[cfg(kani)] #[kani::proof] #[kani::stub(alloc::fmt::format, fmt_stub)]
+fn c14_batch_insert_2() { batch_case(1, 2); }
+//@ harness kind=bounded tier=quick bound="batches of 2 entries of one primary key" timeout=1200 extra="--default-unwind 6"
+#[cfg(kani)] #[kani::proof] #[kani::stub(alloc::fmt::format, fmt_stub)]
+fn c14_batch_remove_2() { batch_case(2, 2); }
+//@ harness kind=bounded tier=thorough bound="batches of 1 entry" timeout=1200 extra="--default-unwind 6"
+#[cfg(kani)] #[kani::proof] #[kani::stub(alloc::fmt::format, fmt_stub)]
+fn c14_batch_insert_1() { batch_case(1, 1); }
